@@ -8,6 +8,8 @@
    What is NOT in the model: real process scheduling, import-time state, hash randomisation itself. *)
 From Coq Require Import List Arith Permutation Bool NArith.
 From I18n Require Import Model.Cli Proofs.Cli Generated.SetSites.
+From Coq Require Import ZArith.
+From I18n Require Import Model.CliPy Generated.CliSrc Proofs.CliSrc.
 Import ListNotations.
 
 Theorem C03_parallel_eq_sequential : forall (file line : Type) (check_file : file -> list line) pi fs,
@@ -28,3 +30,86 @@ Print Assumptions C03_no_order_sensitive_set_iteration.
 
 Example C03_ex : check_all_par nat nat (fun f => [f; f]) [2; 0; 1] [10; 20; 30] = [10; 10; 20; 20; 30; 30].
 Proof. reflexivity. Qed.
+
+(* ---- source tie (notes/SRC15.md): the text of lib/cli.py, translated on every run by tools/gen/gen_cli_src.py into
+   Generated/CliSrc.v, equals Model/Cli.v.  External code (the real checker, subprocesses, the temporary directory, os.walk,
+   the executor) is an argument on both sides; rec_check_file is the recursive reference of check_deb to check_file. *)
+Theorem C03_source_tie_check_file : forall (L X O : Type) (check_call : list str -> bool -> io L X unit) (mkdtemp : str -> res X str)
+    (cleanup : str -> io L X unit) (os_walk : str -> list (str * list str * list str)) (islink isfile : str -> bool)
+    (checker_check rec_check_file : str -> options O -> io L X unit),
+  (forall p d, mkdtemp p = Ret d -> path_ok d) ->
+  forall path o,
+    src_check_file checker_check check_call mkdtemp cleanup os_walk islink isfile rec_check_file path o
+    = check_file checker_check (check_deb check_call mkdtemp cleanup os_walk islink isfile rec_check_file) path o.
+Proof. exact @src_check_file_eq. Qed.
+Print Assumptions C03_source_tie_check_file.
+
+Theorem C03_source_tie_check_file_s : forall (L X O : Type) (check_call : list str -> bool -> io L X unit) (mkdtemp : str -> res X str)
+    (cleanup : str -> io L X unit) (os_walk : str -> list (str * list str * list str)) (islink isfile : str -> bool)
+    (checker_check rec_check_file : str -> options O -> io L X unit),
+  (forall p d, mkdtemp p = Ret d -> path_ok d) ->
+  forall path o,
+    src_check_file_s checker_check check_call mkdtemp cleanup os_walk islink isfile rec_check_file path o
+    = io_capture (check_file checker_check (check_deb check_call mkdtemp cleanup os_walk islink isfile rec_check_file) path o).
+Proof. exact @src_check_file_s_eq. Qed.
+Print Assumptions C03_source_tie_check_file_s.
+
+(* check_all: the sequential loop and the executor branch (results written in the order the executor yields them) *)
+Theorem C03_source_tie_check_all : forall (L X O : Type) (check_call : list str -> bool -> io L X unit) (mkdtemp : str -> res X str)
+    (cleanup : str -> io L X unit) (os_walk : str -> list (str * list str * list str)) (islink isfile : str -> bool)
+    (checker_check rec_check_file : str -> options O -> io L X unit),
+  (forall p d, mkdtemp p = Ret d -> path_ok d) ->
+  forall executor_map : Z -> (str -> io L X (list L)) -> list str -> list (io L X (list L)),
+  (forall n f g l, (forall p, f p = g p) -> executor_map n f l = executor_map n g l) ->
+  forall paths o,
+    src_check_all checker_check check_call mkdtemp cleanup os_walk islink isfile executor_map rec_check_file paths o
+    = check_all executor_map (check_file checker_check (check_deb check_call mkdtemp cleanup os_walk islink isfile rec_check_file)) paths o.
+Proof. exact @src_check_all_eq. Qed.
+Print Assumptions C03_source_tie_check_all.
+
+(* with the executor of the model (completion order pi, results in submission order) and a per-file check that ends normally,
+   that is check_all_seq below the threshold (at most one file or one job) and check_all_par above it *)
+Theorem C03_check_all_is_model : forall (L X O : Type) (cf : str -> options O -> io L X unit) o pi paths,
+  (forall p, snd (cf p o) = Ret tt) ->
+  check_all (fun _ => executor_map_model pi) cf paths o
+  = (if (Z.of_nat (length paths) <=? 1)%Z || (o_jobs o <=? 1)%Z
+     then check_all_seq str L (fun p => fst (cf p o)) paths else check_all_par str L (fun p => fst (cf p o)) pi paths, Ret tt).
+Proof. exact @check_all_model. Qed.
+Print Assumptions C03_check_all_is_model.
+
+(* end to end for the translated text: for every job count, every completion order of the workers and every file list the run
+   writes the concatenation, in argument order, of what the files write *)
+Theorem C03_source_check_all_output : forall (L X O : Type) (checker_check : str -> options O -> io L X unit) check_call mkdtemp cleanup
+    os_walk islink isfile rec_check_file pi paths o,
+  (forall p d, mkdtemp p = Ret d -> path_ok d) ->
+  (forall p, snd (check_file checker_check (check_deb check_call mkdtemp cleanup os_walk islink isfile rec_check_file) p o) = Ret tt) ->
+  Permutation pi (seq 0 (length paths)) ->
+  src_check_all checker_check check_call mkdtemp cleanup os_walk islink isfile (fun _ => executor_map_model pi) rec_check_file paths o
+  = (flat_map (fun p => fst (check_file checker_check (check_deb check_call mkdtemp cleanup os_walk islink isfile rec_check_file) p o)) paths,
+     Ret tt).
+Proof. exact @src_check_all_output. Qed.
+Print Assumptions C03_source_check_all_output.
+
+(* -j: parse_jobs, and the normalisation of jobs / ignore_tags / fake_root in main *)
+Theorem C03_source_tie_parse_jobs : forall (L X : Type) cpu (py_int : str -> res X Z) s,
+  src_parse_jobs cpu py_int s = parse_jobs (L := L) cpu py_int s.
+Proof. exact @src_parse_jobs_eq. Qed.
+Print Assumptions C03_source_tie_parse_jobs.
+
+Theorem C03_source_tie_main_normalise : forall jobs parallel, src_main_normalise jobs parallel = main_normalise jobs parallel.
+Proof. exact src_main_normalise_eq. Qed.
+Print Assumptions C03_source_tie_main_normalise.
+
+Theorem C03_jobs_positive : forall (L X : Type) cpu (py_int : str -> res X Z) s n (w : list L),
+  (0 < cpu)%Z -> parse_jobs cpu py_int s = (w, Ret n) -> (0 < n)%Z.
+Proof. exact @parse_jobs_positive. Qed.
+Print Assumptions C03_jobs_positive.
+
+(* non-vacuity: the translated check_all on three files, two jobs, workers finishing in the order 2 0 1; the per-file check
+   writes the path twice *)
+Example C03_src_ex :
+  src_check_all (L := str) (X := unit) (O := unit) (fun p _ => io_write [p; p]) (fun _ _ => io_ret tt) (fun _ => Ret [116%N]) (fun _ => io_ret tt)
+    (fun _ => []) (fun _ => false) (fun _ => true) (fun _ => executor_map_model [2; 0; 1]) (fun _ _ => io_ret tt)
+    [[97%N]; [98%N]; [99%N]] (mkOptions false 2%Z [] None tt)
+  = ([[97%N]; [97%N]; [98%N]; [98%N]; [99%N]; [99%N]], Ret tt).
+Proof. vm_compute. reflexivity. Qed.
